@@ -327,3 +327,53 @@ func CorreOTReceive(ctxHash *hash.Hash, setup *CorreOTReceiveSetup, choices []by
 
 	return outMsg, &CorreOTReceiveResult{_T: transposeBits(8*batchSizeBytes, &T0)}
 }
+
+// MarshalBinary implements encoding.BinaryMarshaler, so that a setup (and with it a Doerner
+// key share) can be stored: Delta followed by the OTParam keys K_Delta.
+func (s *CorreOTSendSetup) MarshalBinary() ([]byte, error) {
+	out := make([]byte, 0, params.OTBytes*(1+params.OTParam))
+	out = append(out, s._Delta[:]...)
+	for i := range s._K_Delta {
+		out = append(out, s._K_Delta[i][:]...)
+	}
+	return out, nil
+}
+
+// UnmarshalBinary implements encoding.BinaryUnmarshaler.
+func (s *CorreOTSendSetup) UnmarshalBinary(data []byte) error {
+	if len(data) != params.OTBytes*(1+params.OTParam) {
+		return errors.New("CorreOTSendSetup: invalid length")
+	}
+	copy(s._Delta[:], data[:params.OTBytes])
+	for i := range s._K_Delta {
+		copy(s._K_Delta[i][:], data[params.OTBytes*(1+i):params.OTBytes*(2+i)])
+	}
+	return nil
+}
+
+// MarshalBinary implements encoding.BinaryMarshaler: the OTParam keys K_0 followed by the keys K_1.
+func (s *CorreOTReceiveSetup) MarshalBinary() ([]byte, error) {
+	out := make([]byte, 0, 2*params.OTBytes*params.OTParam)
+	for i := range s._K_0 {
+		out = append(out, s._K_0[i][:]...)
+	}
+	for i := range s._K_1 {
+		out = append(out, s._K_1[i][:]...)
+	}
+	return out, nil
+}
+
+// UnmarshalBinary implements encoding.BinaryUnmarshaler.
+func (s *CorreOTReceiveSetup) UnmarshalBinary(data []byte) error {
+	if len(data) != 2*params.OTBytes*params.OTParam {
+		return errors.New("CorreOTReceiveSetup: invalid length")
+	}
+	for i := range s._K_0 {
+		copy(s._K_0[i][:], data[params.OTBytes*i:params.OTBytes*(i+1)])
+	}
+	off := params.OTBytes * params.OTParam
+	for i := range s._K_1 {
+		copy(s._K_1[i][:], data[off+params.OTBytes*i:off+params.OTBytes*(i+1)])
+	}
+	return nil
+}
